@@ -1,17 +1,14 @@
 (* Tie between the patch validators' length guards (translated from the Go source on every run, with the
    package constants resolved to their literal values) and the validator model (C18). *)
-From Coq Require Import ZArith Bool Lia Arith List.
-From SV Require Import Base.Bytes Parser.Protocol Resolve.Op Gen.Kernels Json.Ast Doc.Validator.
+From Coq Require Import ZArith Bool Lia Arith List ZifyBool ZifyNat.
+From SV Require Import Base.Bytes Parser.Protocol Resolve.Op Gen.Kernels GenTie.Tactics Json.Ast Doc.Validator.
 Local Open Scope Z_scope.
 
 (* validateID rejects exactly the ids longer than the model's max_id_length *)
 Theorem validator_idLenGuard_tie p (id : bytes) :
   gen_validator_idLenGuard p (Z.of_nat (length id)) = negb (length id <=? max_id_length)%nat.
 Proof.
-  unfold gen_validator_idLenGuard, max_id_length.
-  destruct (length id <=? 50)%nat eqn:E; cbn [negb].
-  - apply Nat.leb_le in E. rewrite Z.gtb_ltb. apply Z.ltb_ge. lia.
-  - apply Nat.leb_gt in E. rewrite Z.gtb_ltb. apply Z.ltb_lt. lia.
+  unfold gen_validator_idLenGuard, max_id_length. tie.
 Qed.
 
 (* an id the model accepts passes the translated guard *)
@@ -24,8 +21,5 @@ Qed.
 Theorem validator_serviceTypeLenGuard_tie p (ty : bytes) :
   gen_validator_serviceTypeLenGuard p (Z.of_nat (length ty)) = negb (length ty <=? max_service_type_length)%nat.
 Proof.
-  unfold gen_validator_serviceTypeLenGuard, max_service_type_length.
-  destruct (length ty <=? 30)%nat eqn:E; cbn [negb].
-  - apply Nat.leb_le in E. rewrite Z.gtb_ltb. apply Z.ltb_ge. lia.
-  - apply Nat.leb_gt in E. rewrite Z.gtb_ltb. apply Z.ltb_lt. lia.
+  unfold gen_validator_serviceTypeLenGuard, max_service_type_length. tie.
 Qed.
